@@ -333,6 +333,71 @@ theorem lon_increasing_neptune : StrictMonoOn (Spec.directSum Neptune_VSOP87_L) 
     Tables.Neptune.L_sumAbsAC (by norm_num [bSums, subAt1, expA, expC])
   exact h.mono (Set.Icc_subset_Icc (le_refl _) (by norm_num))
 
+/-! ### Rate of the longitude (partial form of "at a daily rate within 3 % of the Keplerian extremes").
+FULL CLAUSE (not proved; covered by the predicates of harness/c07.py only): the daily motion stays within 3 % of
+the Keplerian extremes `n√(1−e²)/(1±e)²` of the mean orbit.  PROVED here, for every t ∈ [−4, 4] millennia: the
+un-reduced longitude series is differentiable and its derivative differs from the secular rate `a` (the mean
+motion, series L1) by at most the fraction ρ of `a` given by the triangle inequality over all the other terms
+(sums of |A| and |A·C| of the regenerated tables): Venus 2.2 %, Neptune 2.6 %, Earth 4.6 %, Uranus 12 %,
+Jupiter 15 %, Saturn 24 %, Mars 31 %, Mercury 64 %.  MISSING: the bound is not tight (it ignores the phases), so
+it brackets the equation-of-centre variation (2e ≈ 1.4 % … 41 %) only coarsely. -/
+theorem lon_rate_partial_mercury (t : ℝ) (ht : |t| ≤ 4) :
+    ∃ d, HasDerivAt (Spec.directSum Mercury_VSOP87_L) d t ∧
+      |d - Spec.leadAmp Mercury_VSOP87_L| ≤ 0.64 * Spec.leadAmp Mercury_VSOP87_L := by
+  unfold Mercury_VSOP87_L
+  rw [leadAmp_scaled _ _ _ _ Tables.Mercury.L_lead1]
+  exact deriv_bounds_of_sums Tables.Mercury.L _ _ _ 4 _ Tables.Mercury.L_lead1 Tables.Mercury.L_sumAbsA
+    Tables.Mercury.L_sumAbsAC (by norm_num [bSums, subAt1, expA, expC]) t ht
+theorem lon_rate_partial_venus (t : ℝ) (ht : |t| ≤ 4) :
+    ∃ d, HasDerivAt (Spec.directSum Venus_VSOP87_L) d t ∧
+      |d - Spec.leadAmp Venus_VSOP87_L| ≤ 0.022 * Spec.leadAmp Venus_VSOP87_L := by
+  unfold Venus_VSOP87_L
+  rw [leadAmp_scaled _ _ _ _ Tables.Venus.L_lead1]
+  exact deriv_bounds_of_sums Tables.Venus.L _ _ _ 4 _ Tables.Venus.L_lead1 Tables.Venus.L_sumAbsA
+    Tables.Venus.L_sumAbsAC (by norm_num [bSums, subAt1, expA, expC]) t ht
+theorem lon_rate_partial_earth (t : ℝ) (ht : |t| ≤ 4) :
+    ∃ d, HasDerivAt (Spec.directSum Earth_VSOP87_L) d t ∧
+      |d - Spec.leadAmp Earth_VSOP87_L| ≤ 0.046 * Spec.leadAmp Earth_VSOP87_L := by
+  unfold Earth_VSOP87_L
+  rw [leadAmp_scaled _ _ _ _ Tables.Earth.L_lead1]
+  exact deriv_bounds_of_sums Tables.Earth.L _ _ _ 4 _ Tables.Earth.L_lead1 Tables.Earth.L_sumAbsA
+    Tables.Earth.L_sumAbsAC (by norm_num [bSums, subAt1, expA, expC]) t ht
+theorem lon_rate_partial_mars (t : ℝ) (ht : |t| ≤ 4) :
+    ∃ d, HasDerivAt (Spec.directSum Mars_VSOP87_L) d t ∧
+      |d - Spec.leadAmp Mars_VSOP87_L| ≤ 0.31 * Spec.leadAmp Mars_VSOP87_L := by
+  unfold Mars_VSOP87_L
+  rw [leadAmp_scaled _ _ _ _ Tables.Mars.L_lead1]
+  exact deriv_bounds_of_sums Tables.Mars.L _ _ _ 4 _ Tables.Mars.L_lead1 Tables.Mars.L_sumAbsA
+    Tables.Mars.L_sumAbsAC (by norm_num [bSums, subAt1, expA, expC]) t ht
+theorem lon_rate_partial_jupiter (t : ℝ) (ht : |t| ≤ 4) :
+    ∃ d, HasDerivAt (Spec.directSum Jupiter_VSOP87_L) d t ∧
+      |d - Spec.leadAmp Jupiter_VSOP87_L| ≤ 0.15 * Spec.leadAmp Jupiter_VSOP87_L := by
+  unfold Jupiter_VSOP87_L
+  rw [leadAmp_scaled _ _ _ _ Tables.Jupiter.L_lead1]
+  exact deriv_bounds_of_sums Tables.Jupiter.L _ _ _ 4 _ Tables.Jupiter.L_lead1 Tables.Jupiter.L_sumAbsA
+    Tables.Jupiter.L_sumAbsAC (by norm_num [bSums, subAt1, expA, expC]) t ht
+theorem lon_rate_partial_saturn (t : ℝ) (ht : |t| ≤ 4) :
+    ∃ d, HasDerivAt (Spec.directSum Saturn_VSOP87_L) d t ∧
+      |d - Spec.leadAmp Saturn_VSOP87_L| ≤ 0.24 * Spec.leadAmp Saturn_VSOP87_L := by
+  unfold Saturn_VSOP87_L
+  rw [leadAmp_scaled _ _ _ _ Tables.Saturn.L_lead1]
+  exact deriv_bounds_of_sums Tables.Saturn.L _ _ _ 4 _ Tables.Saturn.L_lead1 Tables.Saturn.L_sumAbsA
+    Tables.Saturn.L_sumAbsAC (by norm_num [bSums, subAt1, expA, expC]) t ht
+theorem lon_rate_partial_uranus (t : ℝ) (ht : |t| ≤ 4) :
+    ∃ d, HasDerivAt (Spec.directSum Uranus_VSOP87_L) d t ∧
+      |d - Spec.leadAmp Uranus_VSOP87_L| ≤ 0.12 * Spec.leadAmp Uranus_VSOP87_L := by
+  unfold Uranus_VSOP87_L
+  rw [leadAmp_scaled _ _ _ _ Tables.Uranus.L_lead1]
+  exact deriv_bounds_of_sums Tables.Uranus.L _ _ _ 4 _ Tables.Uranus.L_lead1 Tables.Uranus.L_sumAbsA
+    Tables.Uranus.L_sumAbsAC (by norm_num [bSums, subAt1, expA, expC]) t ht
+theorem lon_rate_partial_neptune (t : ℝ) (ht : |t| ≤ 4) :
+    ∃ d, HasDerivAt (Spec.directSum Neptune_VSOP87_L) d t ∧
+      |d - Spec.leadAmp Neptune_VSOP87_L| ≤ 0.026 * Spec.leadAmp Neptune_VSOP87_L := by
+  unfold Neptune_VSOP87_L
+  rw [leadAmp_scaled _ _ _ _ Tables.Neptune.L_lead1]
+  exact deriv_bounds_of_sums Tables.Neptune.L _ _ _ 4 _ Tables.Neptune.L_lead1 Tables.Neptune.L_sumAbsA
+    Tables.Neptune.L_sumAbsAC (by norm_num [bSums, subAt1, expA, expC]) t ht
+
 /-! ### The secular acceleration: series L2 against the `T²` coefficient of the mean longitude.
 For the planets whose series L2 starts with the secular term `(A, 0, 0)` (Mercury, Venus, Earth, Uranus,
 Neptune; for Mars, Jupiter and Saturn the source lists a periodic term first), `A·t²` in 1e-8 rad per
